@@ -317,6 +317,52 @@ def container(head, elem, depth=0):
     return harness
 
 
+def append(elem):
+    """'--x+=TEXT' on a List[elem] option: a text the element type accepts (and that is not itself a list) is appended as that
+    element; whatever is accepted conforms. Element verdicts come from the real code on the element type's own parser."""
+    from jsonargparse import ArgumentError
+
+    install_format_stubs()
+    spec = ["List", elem]
+    _parser(spec).parse_object({"x": None})
+    _parser(elem).parse_object({"x": None})
+    import yaml
+
+    def once(t, prior):
+        argv = (["--x=[]"] if prior == "empty" else ["--x=[1]"] if prior == "one" else []) + ["--x+=" + t]
+        try:
+            res = _parser(spec).parse_args(argv).x
+            acc = True
+        except ArgumentError:
+            acc, res = False, None
+        acc_e, res_e = accept_text(elem, t)
+        try:
+            loaded = yaml.safe_load(t)
+        except Exception:
+            loaded = t
+        S.note("accepted" if acc else "rejected")
+        if acc and not strict_conforms(res, spec):
+            return Fail("conformance:accepted-result-does-not-conform", spec=spec, argv=argv)
+        if acc_e and res_e is not None and not isinstance(loaded, list) and not isinstance(res_e, list):
+            if not acc:
+                return Fail("compositional:append-rejects-what-the-element-type-accepts", spec=spec, argv=argv)
+        return True
+
+    def harness():
+        t = S.pick("text", TEXT_MENU + ["abc", "2.5", "x y"])
+        prior = S.pick("prior", ["none", "empty", "one"])
+        if prior == "one" and elem in ("bool", "str"):
+            return None
+        if S.replaying is not None:
+            return once(t, prior)
+        from crosshair.tracers import NoTracing
+
+        with NoTracing():
+            return once(t, prior)
+
+    return harness
+
+
 def fixed_tuple(elems):
     install_format_stubs()
     INT_WINDOW[0] = (-2, 3) if _uses_restricted(elems) else None
@@ -435,6 +481,8 @@ def plan(tier):
     jobs.append(("union", dict(members=[["List", "int"], "int"], depth=1)))
     jobs.append(("union", dict(members=["str", ["List", "int"]], depth=1)))
     jobs.append(("union", dict(members=["str", ["Dict", "int"]], depth=1)))
+    for el in ("int", "str", ["Union", "int", "str"], ["Union", "str", ["List", "int"]], ["Union", "int", ["List", "int"]], ["Optional", ["List", "int"]], ["Union", "float", "None"]):
+        jobs.append(("append", dict(elem=el)))
     # two container members: an earlier member may convert some elements before it fails on a later one
     jobs.append(("union", dict(members=[["List", "PositiveInt"], ["List", "str"]], depth=1, pairs=True)))
     jobs.append(("union", dict(members=[["Dict", "PositiveInt"], ["Dict", "str"]], depth=1, pairs=True)))
